@@ -94,6 +94,8 @@ def items_of(v):
         return v.rest()
     if isinstance(v, list):
         return v
+    if isinstance(v, Adt) and v.path == "std::ops::RangeFrom":
+        raise Unsupported("iteration over the unbounded range %r.." % (v.fields.get("start"),))
     if isinstance(v, Adt) and v.path.startswith("std::ops::Range"):
         lo = v.fields.get("start")
         hi = v.fields.get("end")
@@ -264,6 +266,54 @@ def _opt_map(m, a, c):
     if v.variant == "Some":
         return some(m.call_value(a[1], [v.fields["0"]]))
     return NONE
+
+
+@reg("std::option::Option::<T>::map_or")
+def _opt_map_or(m, a, c):
+    v = deref(a[0])
+    if isinstance(v, Term):
+        return Term("opt_map_or", v, a[1], a[2])
+    if v.variant == "Some":
+        return m.call_value(a[2], [v.fields["0"]])
+    return a[1]
+
+
+@reg("std::option::Option::<T>::map_or_else")
+def _opt_map_or_else(m, a, c):
+    v = deref(a[0])
+    if isinstance(v, Term):
+        return Term("opt_map_or_else", v, a[1], a[2])
+    if v.variant == "Some":
+        return m.call_value(a[2], [v.fields["0"]])
+    return m.call_value(a[1], [])
+
+
+@reg("core::slice::<impl [T]>::binary_search", "std::slice::<impl [T]>::binary_search")
+def _slice_binary_search(m, a, c):
+    # the standard library's algorithm on whatever order the slice is in (an unsorted slice gives what it gives)
+    v = deref(a[0])
+    x = deref(a[1])
+    if is_sym(v) or not isinstance(v, PyVec):
+        raise Unsupported("binary_search over %r" % (v,))
+    size = len(v.items)
+    if size == 0:
+        return err(0)
+    base = 0
+    while size > 1:
+        half = size // 2
+        mid = base + half
+        o = _cmp_vals(v.items[mid], x, m)
+        if isinstance(o, Term):
+            raise Unsupported("symbolic ordering in binary_search")
+        if o.variant != "Greater":
+            base = mid
+        size -= half
+    o = _cmp_vals(v.items[base], x, m)
+    if isinstance(o, Term):
+        raise Unsupported("symbolic ordering in binary_search")
+    if o.variant == "Equal":
+        return ok(base)
+    return err(base + (1 if o.variant == "Less" else 0))
 
 
 @reg("std::option::Option::<T>::and_then")
@@ -1154,6 +1204,15 @@ def _iter_adapt(name):
             else:
                 src = list(items_of(it))
             return LazyIter(src, lambda x: m.call_value(f_, [x]))
+        if isinstance(it, Adt) and it.path == "std::ops::RangeFrom":
+            # an unbounded counter: only meaningful zipped with (or cut to) something finite
+            lo = it.fields.get("start")
+            if name == "zip" and not is_sym(lo):
+                other = list(items_of(a[1]))
+                return PyIter([(lo + i, x) for i, x in enumerate(other)])
+            if name == "take" and not is_sym(lo) and not is_sym(deref(a[1])):
+                return PyIter(list(range(lo, lo + deref(a[1]))))
+            raise Unsupported("iteration over the unbounded range %r.." % (lo,))
         if isinstance(it, LazyIter) and name in ("all", "any", "find", "position", "try_fold", "try_for_each", "sum", "collect",
                                                   "take_while", "find_map"):
             xs = _Pull(it)       # pulled one at a time: what the consumer does not reach is not evaluated
